@@ -14,5 +14,6 @@ CONSTANTS
   DEV_DirThroughLink = FALSE
   DEV_WalkRawName = FALSE
   DEV_LinkRawName = FALSE
+  DEV_LinkOneSlash = FALSE
 INVARIANT TypeOK
 CHECK_DEADLOCK FALSE
